@@ -15,6 +15,10 @@ REF_VARIANTS = {1: ["plain", "unsorted", "padded", "extra"], 2: ["plain", "extra
 
 UTF8_SHA256_CONTENT = "vf-utf8-343125952"  # sha256() of this text is a valid UTF-8 byte string (found by search)
 UTF8_SHA1_CONTENT = "vf-utf8-100126"      # sha1() of this text is a valid UTF-8 byte string (checked at run time)
+# full 16 KiB pieces and a short tail whose SHA-1 digests are valid UTF-8 WITH multi-byte characters (17-19 characters
+# for 20 bytes): a pieces string made of them is handed over as text whose character offsets are not byte offsets
+UTF8_PIECES = [(b"vf-utf8-piece-%d" % n).ljust(16384, b".").decode() for n in (57626, 74960, 84558)]
+UTF8_TAIL = "vf-utf8-tail-4730"
 
 
 def gen_case(rng, tier, damaged, single_ok=True):
@@ -53,6 +57,20 @@ def gen_case(rng, tier, damaged, single_ok=True):
         if single_ok and rng.random() < 0.5:
             tree = {"name": "one", "single": True, "dirs": [], "layout": "tiny-total", "files": [["one", n, rng.randrange(1 << 30)]]}
     version = rng.choice([1, 2, 3])
+    if 0.05 <= c < 0.06:
+        # a v1 torrent of several pieces every one of whose hashes is valid multi-byte UTF-8
+        exp, pl, version = 14, 16384, 1
+        blocks = list(UTF8_PIECES)
+        rng.shuffle(blocks)
+        blocks = blocks[:rng.choice([2, 3])]
+        if single_ok and rng.random() < 0.4:
+            body = "".join(blocks) + UTF8_TAIL
+            tree = {"name": "utf8.bin", "single": True, "dirs": [], "layout": "utf8-hash-multi",
+                    "files": [["utf8.bin", len(body), "raw:" + body]]}
+        else:
+            tree = {"name": "utf8", "single": False, "dirs": [], "layout": "utf8-hash-multi",
+                    "files": [[f"p{k}", 16384, "raw:" + b] for k, b in enumerate(blocks)] +
+                             [["tail", len(UTF8_TAIL), "raw:" + UTF8_TAIL]]}
     if rng.random() < 0.5:
         enc = ["tool", rng.choice(TOOL_ROUTES[version])]
     else:
@@ -329,6 +347,11 @@ def _common_result(case, obs, viol, counters, sample_extra=None):
         counters["content_path_spelled_cases"] = 1
     if case["tree"]["layout"] == "many-pieces":
         counters["cases_with_thousands_of_pieces"] = 1
+    if case["tree"]["layout"] == "utf8-hash-multi":
+        import hashlib as _h
+        for b in UTF8_PIECES + [UTF8_TAIL]:
+            assert len(_h.sha1(b.encode()).digest().decode("utf-8")) < 20      # raises if a constant is wrong
+        counters["multi_piece_utf8_hash_cases"] = 1
     if case["tree"]["layout"] == "empties-run":
         counters["cases_with_long_runs_of_empty_files"] = 1
     sample = {"files": [[f[0], f[1]] for f in case["tree"]["files"][:8]], "piece_length": 2 ** case["pl_exp"],
